@@ -14,7 +14,7 @@ def burst_histories(r, thorough):
     cases = []
     for _ in range(12 if thorough else 4):
         cfg = sl.base_cfg(r, None)
-        n = r.choice([5, 100, 129, 130, 200, 300])
+        n = r.choice([5, 100, 129, 130, 200, 300] if thorough else [5, 60, 100, 129, 130])      # (a 300-request burst costs coqc minutes: thorough tier only)
         cfg.update({"max_clients": 10, "max_subs": 10, "max_conns": 16, "max_inflight": 512, "queue": 1024, "max_message": 8192})
         g = sl.Gen(r, cfg)
         for k, u in ((1, "alice"), (2, "bob")):
